@@ -10,6 +10,7 @@
 //!     (modelled here, trusted); for `PieceIndex` and `Square` it is the CONTRACT of the repository's `Display` impls
 //!     (one letter PNBRQK, upper case for White; file letter + rank digit), each of which is proved through the real
 //!     `core::fmt` by its own obligation (c11_piece_letter_display_contract, c11_square_text_roundtrip).
+//!   * `ArrayMap::from(value.board())` is bound to the contract of that conversion (see `Mailbox` below).
 //! What this drops, exactly: `core::fmt`'s `Formatter` (padding/width/precision flags, none of which the writer uses).  The
 //! writer's control flow, loops, conditions and the order and arguments of every `write!` are the repository's text.
 use super::*;
@@ -84,6 +85,32 @@ impl Emit for Square {
         let i = sq_u8(*self);
         f.put(b'a' + i % 8)?;
         f.put(b'1' + i / 8)
+    }
+}
+
+/// The writer starts with `ArrayMap::from(value.board())`, the mailbox view of the position (`Board::piece_at` on all 64
+/// squares: the loop pattern that exhausts CBMC's memory when it is inlined into a larger obligation).  Inside this module
+/// the name `ArrayMap` is bound to the CONTRACT of that conversion -- at every square the piece index standing there --
+/// which c11_mailbox_of_board_contract proves for the real `<ArrayMap<Square, PieceIndex> as From<&Board>>::from` on
+/// fully symbolic positions.
+pub struct Mailbox([PieceIndex; 64]);
+impl std::ops::Index<Square> for Mailbox {
+    type Output = PieceIndex;
+    fn index(&self, s: Square) -> &PieceIndex {
+        &self.0[sq_u8(s) as usize]
+    }
+}
+pub struct ArrayMap;
+impl ArrayMap {
+    pub fn from(board: &Board) -> Mailbox {
+        let p = boards_of(board);
+        let mut m = [PieceIndex(0); 64];
+        let mut t = 0u8;
+        while t < 64 {
+            m[t as usize] = PieceIndex(code_at(&p, t));
+            t += 1;
+        }
+        Mailbox(m)
     }
 }
 
@@ -201,8 +228,8 @@ fn spec_fields(turn: Color, bits: u8, ep: Option<Square>, half: usize, full: usi
     spec_number(full, e, n);
 }
 
-fn rights_of(bits: u8) -> ArrayMap<Color, CastleRights> {
-    ArrayMap::new([
+fn rights_of(bits: u8) -> crate::utils::ArrayMap<Color, CastleRights> {
+    crate::utils::ArrayMap::new([
         CastleRights { kingside: bits & 1 != 0, queenside: bits & 2 != 0 },
         CastleRights { kingside: bits & 4 != 0, queenside: bits & 8 != 0 },
     ])
@@ -324,7 +351,7 @@ fn c11_mailbox_of_board_contract() {
     let p: [u64; 16] = kani::any();
     kani::assume(boards_wf_unrolled(&p));
     let board = board_from(&p);
-    let m = ArrayMap::<Square, PieceIndex>::from(&board);
+    let m = crate::utils::ArrayMap::<Square, PieceIndex>::from(&board);
     let t = any_square();
     assert!(m[t].0 == code_at(&p, sq_u8(t)));
     kani::cover!(m[t].0 == 14, "black king reachable");
